@@ -94,7 +94,7 @@ PROPS["C16"] = {
     ],
     "rule": ("one case = one (sampler, parameter set) of a ~170-entry grid covering every distribution of the header incl. the boundary "
              "values named in the property (p=1, p near 0/1, probability vectors summing to one only within 1e-3, shapes 0.05..50, n=1, "
-             "min~max, build-time ziggurat and alias tables); N seeded draws (2e5 quick / 2e6 thorough; ziggurat samplers 2e6 / 1e7) "
+             "min~max, build-time ziggurat and alias tables); N seeded draws (2e5 quick / 2e6 thorough; ziggurat samplers 1e7 / 4e7) "
              "checked draw-by-draw against the support predicate and by KS / chi-square / mean z-test / tail-mass tests against scipy "
              "reference distributions with the two-stage p<1e-5 then p<1e-7 rule; distinct = distinct parameter sets; all non-trivial"),
     "headline": ["parameter_sets", "draws", "support_checks", "fit_tests", "stage2_reruns", "worst_p_ppm_std_normal",
